@@ -201,6 +201,14 @@ def dropSvc (idx : Nat) (c : Cat) (s : Svc) : Cat :=
     { c with svcs := svcs, catIdx := idx, svcIdx := erase s.name c.svcIdx,
              extinct := some (maxOpt c.extinct idx) }
 
+/-- `ensureNodeTxn`: row, table index, and the service indexes of every instance on the node -/
+def setNode (idx : Nat) (c : Cat) (node : String) (addr : Nat) : Cat :=
+  { c with nodes := upsert node addr c.nodes, catIdx := idx, svcIdx := (svcsOnNode c node).foldl (fun m s => bump s.name idx m) c.svcIdx }
+
+/-- `ensureServiceTxn` / `catalogInsertService`: row, table index, `service.<name>` index -/
+def regCat (idx : Nat) (c : Cat) (s : Svc) : Cat :=
+  { c with svcs := putSvc c.svcs s, catIdx := idx, svcIdx := bump s.name idx c.svcIdx }
+
 /-- The commit of one write at Raft index `idx`: the new catalog, the events
     `processDBChanges` computes for it (health events, then their Connect copies; config entry
     events), and the tokens of its `closeSubscriptionPayload`. -/
@@ -231,19 +239,13 @@ def applyWrite (idx : Nat) (c : Cat) : Write → Cat × List Ev × List String
            ({ c1 with nodes := erase node c1.nodes, catIdx := idx }, h ++ h.flatMap connectCopy, []))
   | .reg node addr svc =>
       let nodeChanged := lookup? node c.nodes ≠ some addr
-      -- ensureNodeTxn: row, table index, and the service indexes of every instance on the node
-      let c1 : Cat :=
-        if nodeChanged then
-          { c with nodes := upsert node addr c.nodes, catIdx := idx,
-                   svcIdx := (svcsOnNode c node).foldl (fun m s => bump s.name idx m) c.svcIdx }
-        else c
+      let c1 : Cat := if nodeChanged then setNode idx c node addr else c
       let before := svc.bind fun s => findSvc c node s.sid
       let svcChanged := match svc with
         | none => false
         | some s => before ≠ some s
       let c2 : Cat := match svc with
-        | some s => if svcChanged then
-            { c1 with svcs := putSvc c1.svcs s, catIdx := idx, svcIdx := bump s.name idx c1.svcIdx } else c1
+        | some s => if svcChanged then regCat idx c1 s else c1
         | none => c1
       -- events
       let nodeEvs := if nodeChanged then (svcsOnNode c2 node).map (regEv c2) else []
